@@ -19,6 +19,8 @@
     `ctfTRu_sound_free_partial`  the same with valueless items read as free variables of the answer;
     `ctfTRu_sound_fun`           the same as an identity between functions of the valuation (what line 4 of Algorithm 3
                                  sums over);
+    `ctfTRu_correct_partial`     the three clauses of C09 for Algorithm 2 in one statement (no other error; zero only for
+                                 impossible events; value);
     `ctfTR_line4_of_parts`       the normalisation step of Algorithm 3 on top of it;
     `ctfTR_sound_of_parts`       Algorithm 3: the returned fraction is `P*(y_* | x_*)` given the two
                                  marginalisation-and-independence identities (the named missing link of `ctfTR_sound`).
@@ -157,6 +159,46 @@ theorem ctfTR_line4_of_parts (env : Env) (σ' σ : Val) (Q : Expr) (A B : List N
   have h1 : (fun τ => den env σ' Q τ) = J := funext hQ
   rw [h1]
   exact line4_normalise _ _ c Pjoint Pcond hc hnum hden
+
+/-- **C09 for Algorithm 2, the three clauses together.**  For an input accepted by the validator, built by the public
+wrapper, without a self-intervened variable, on graphs built by `from_edges` with domains as declared and selection
+diagrams that agree with the target graph (`DomainsAgree`): `ctfTRu` raises no error, and its result is
+* FAIL, or
+* `Zero()` without an event — and then the queried event has probability 0 in every compatible functional SCM, or
+* an expression `x` with the simplified event `ev` — and then, if no item of `ev` is valueless and `ev` is in the class
+  `ctfSoundClass`, `x` evaluated on the declared domain distributions of ANY compatible family at ANY valuation carrying
+  the returned event's values is the target probability of the queried event. -/
+theorem ctfTRu_correct_partial (target : MG Name) (ds : List Domain) (e : Event)
+    (hv : validateU target ds e = .ok ()) (hwf : target.WF) (hdecl : DomainsDeclared ds) (hplain : EventVarsPlain e)
+    (hrefl : ∀ p ∈ e, selfIntervened p.1 = false) (hdom : DomainsAgree target ds) :
+    ctfTRu target ds e = .ok none ∨
+    (ctfTRu target ds e = .ok (some (.zero, none)) ∧
+      ∀ (M : Fscm.Model), Fscm.Compatible M target → ∀ ν : BaseValues, ν.Distinct → probEventOpt M ν e = 0) ∨
+    (∃ x ev, ctfTRu target ds e = .ok (some (x, some ev)) ∧
+      ((∀ p ∈ ev, p.2 ≠ none) → ctfSoundClass target ev = .ok true →
+        ∀ (F : FscmFamily) (graphs : Option Name → MG Name), F.CompatibleWith target graphs (declsOf ds) →
+        ∀ (ν : BaseValues), ν.Distinct → ∀ (σ σ' : Val), (∀ x, σ x < F.card x) → EventReading ν σ ev →
+          den (F.env graphs) σ' x σ = probEventOpt F.target ν e)) := by
+  have hcls : CrashClassU e = false := by
+    have : Reflexive e = false := by
+      unfold Reflexive
+      rw [List.any_eq_false]
+      intro p hp
+      have := hrefl p hp
+      unfold selfIntervened at this
+      simpa using this
+    simp [CrashClassU, this]
+  rcases ctfTRu_answers_or_fails target ds e hv hwf hdecl.wf hcls hplain hdom with ⟨⟨x, oev⟩, ha⟩ | hf
+  · cases oev with
+    | none =>
+      refine Or.inr (Or.inl ?_)
+      have hz := ctfTRu_zero_only_from_simplify target ds e x ha
+      refine ⟨by rw [ha, hz.1], fun M hM ν hν => ?_⟩
+      exact (ctf_zero_sound_partial target ds e x ha hrefl (validateU_values target ds e hv) M hM ν hν).2
+    | some ev =>
+      refine Or.inr (Or.inr ⟨x, ev, ha, fun hnone hclass F graphs hF ν hν σ σ' hσr hσ => ?_⟩)
+      exact ctfTRu_sound_partial target ds e ev x ha hwf hdecl hplain hrefl hnone hclass F graphs hF ν hν σ σ' hσr hσ
+  · exact Or.inl hf
 
 /-- the entries of the derived event `D_*` of Algorithm 3 are what Algorithm 2's theorems ask of an input event: plain
 ctf-factor-form variables, none of them self-intervened (the target graph is acyclic) -/
